@@ -14,7 +14,7 @@ git apply out/patch.verified.diff
 rm -f ciphercore-base/tests/demo.rs
 rc3=skipped
 if [ "$2" != "nosuite" ]; then
-  cargo test --workspace --no-fail-fast --offline -j8 > out/verify_suite.log 2>&1; rc3=$?
+  cargo test --workspace --no-fail-fast --offline --lib --bins --tests -j8 > out/verify_suite.log 2>&1; rc3=$?
 fi
 echo "$ID demo_with_change_rc=$rc1 demo_without_rc=$rc2 suite_with_change_rc=$rc3 $(grep -h 'test result' out/verify_suite.log 2>/dev/null | awk '{p+=$4; f+=$6} END {print "passed="p" failed="f}')"
 mkdir -p /verif/seeded/$ID
